@@ -11,7 +11,7 @@ LEVEL = {
          "over-approximated path set of the named functions only (no data flow beyond Result/Option/bool tags and a few integers); OS fsync semantics, multi-commit histories, thread interleavings and file contents are outside; rustc's MIR printer is trusted"),
  "C02": ("K+M", "Kernel level: the delete-visibility rule, the opstamp allocator, the alive-bitset algebra and its codec are decided for all inputs within the bounds by CBMC on the compiled code; the guard / loop structure of compute_deleted_bitset (break iff opstamp > target, remove only on is_deleted, one advance per op) and advance_deletes by z3 on the MIR.",
          "says nothing about registers, worker/updater schedules or whole operation histories (IndexWriter cannot be executed symbolically: threads, HashMap)"),
- "C03": ("K", "Kernel level: boolean combinators are decided to be set algebra under C13; here the phrase position kernels, the order-preserving value encodings and the fast-field range push-down are decided for all inputs within the bounds by CBMC.",
+ "C03": ("K+M", "Kernel level: boolean combinators are decided to be set algebra under C13; here the phrase position kernels, the order-preserving value encodings, the fast-field range push-down, f64 / IP range bounds and bound_to_value_range are decided for all inputs within the bounds by CBMC; the bound transformations of integer literals on integer columns of another type are executed from the MIR as bit-vector programs and decided by z3 + cvc5 for all 64-bit literal / value pairs.",
          "which combinator BooleanWeight picks, term dictionaries / automata, real segments and collectors are outside"),
  "C05": ("M+K", "z3 over the MIR: the reader resolves meta.json and opens every segment file inside the META_LOCK window GC also takes, publishes a searcher only after a complete load, and opens all components eagerly; CBMC: OwnedBytes views are stable.",
          "arc-swap atomicity, mmap page cache and real interleavings are reduced to lock-window obligations; the lock itself is C18"),
